@@ -520,8 +520,12 @@ public:
     bool reacted = false;
   };
 
-  void issue(TaskRec& t, TaskInterface ti, const uv::Req& r, uintptr_t id) {
-    t.issued.push_back({id, r.key, r.mode});
+  // Input ids are "an arbitrary value ... chosen to allow a pointer": with hostile values the id handed to the engine
+  // does not fit in 32 bits (and differs from every other one above bit 32 as well as below).
+  uintptr_t wireId(uintptr_t id) const { return cfg.hostileValues ? (id | ((uintptr_t)(id + 1) << 33)) : id; }
+  void issue(TaskRec& t, TaskInterface ti, const uv::Req& r, uintptr_t lid) {
+    uintptr_t id = wireId(lid);
+    t.issued.push_back({lid, r.key, r.mode});
     waitEdges.insert({t.key, r.key});
     DepRec d{keyName(r.key), r.mode == Mode::M, r.mode == Mode::S};
     issuedDeps[t.key].push_back(d);
@@ -568,7 +572,7 @@ public:
     std::string v = unwrapV(raw);
     ev(std::string("provide ") + t.key + " " + std::to_string(id) + " " + hexs(raw));
     TaskRec::Issued* is = nullptr;
-    for (auto& i : t.issued) if (i.id == id && i.mode != Mode::M) is = &i;
+    for (auto& i : t.issued) if (wireId(i.id) == id && i.mode != Mode::M) is = &i;
     if (cfg.checkProto) {
       if (!t.started || t.available) violate("protocol-provide-order", std::string("provideValue outside start..inputsAvailable for ") + t.key);
       if (!is) violate("protocol-provide-unrequested", std::string("provideValue with unrequested id for ") + t.key);
@@ -585,7 +589,7 @@ public:
       if (!rv.first && rv.second != v)
         violate("stale-input", std::string("task ") + t.key + " was handed '" + v + "' for input " + is->key + ", current value is '" + rv.second + "'");
     }
-    if (t.def.hasReact && !t.reacted && (int)id == t.def.reactOn && id < 10 &&
+    if (t.def.hasReact && !t.reacted && (int)is->id == t.def.reactOn && is->id < 10 &&
         (t.def.reactPar == 2 || uv::parity(v) == t.def.reactPar)) {
       t.reacted = true;
       issue(t, ti, t.def.reactReq, 10);
